@@ -698,6 +698,24 @@ Section Cells.
     intros key c Hin. rewrite Hs. apply in_filter_keys; assumption.
   Qed.
 
+  (* the list printed in the NOTE: the keys of the zero-importance cells in the
+     order of the cell block, each once *)
+  Theorem skipped_in_order imp_cards cards lats cells skipped :
+    parse_cells Sc P imp_cards cards lats = Ok (cells, skipped) ->
+    skipped = map fst (filter (fun kc => is_zero (snd kc)) cells) /\ NoDup skipped.
+  Proof.
+    intros H. pose proof (skipped_iff_zero _ _ _ _ _ H) as (_ & Hn & _).
+    unfold parse_cells in H.
+    destruct (importance_cards Sc P imp_cards) as [imps|]; cbn [bind] in H; [|discriminate].
+    destruct (dict_of Z.eqb cards) as [|d0 d] eqn:Ed; [discriminate|].
+    destruct (parse_ranked_spec _ _ _ _ _ _ _ H) as [_ Hs]. split; [exact Hs|].
+    rewrite Hs. clear - Hn. induction cells as [|[k c] r IH]; [constructor|].
+    cbn [map fst] in Hn. inversion Hn as [|? ? Ha Hr]; subst. cbn [filter snd].
+    destruct (is_zero c); [|apply IH; exact Hr]. cbn [map fst]. constructor; [|apply IH; exact Hr].
+    intros Hin. apply Ha. apply in_map_iff in Hin. destruct Hin as ([k' c'] & <- & Hf).
+    apply filter_In in Hf. apply (in_map fst _ _ (proj1 Hf)).
+  Qed.
+
   (* construct_volume_t4: exactly the cells of non-zero importance that are in
      no universe and have no FILL are handed to the conversion *)
   Theorem converted_iff (cells : list (Z * cell (T:=T))) key c :
